@@ -43,6 +43,10 @@ def factories():
     # the addresses a device uses are those given to its constructor - not what the device itself reports
     out = [(n, (lambda x, a, b, c, f=f, n=n: [(f(x, a, b), {a} if n in one else {a, b})])) for n, f in simple]
     out.append(("ClimateWithMode", climate_with_mode))
+    # devices configured without any group address (legal: they are driven by the application only): registered, counted, never dispatched to
+    out.append(("SwitchNoAddress", lambda x, a, b, c: [(Switch(x, "sw0"), set())]))
+    out.append(("LightNoAddress", lambda x, a, b, c: [(Light(x, "li0"), set())]))
+    out.append(("ClimateNoAddress", lambda x, a, b, c: [(Climate(x, "cl0"), set())]))
     return out
 
 
